@@ -47,7 +47,7 @@ fn main() {
                 std::process::exit(2);
             }
             // silence panic messages of the code under test (panics are data, recorded in the trace)
-            std::panic::set_hook(Box::new(|_| {}));
+            if std::env::var("ENRH_LOUD").is_err() { std::panic::set_hook(Box::new(|_| {})); }
             let inp = BufReader::new(std::fs::File::open(&args[2]).expect("open scripts"));
             let outp = BufWriter::with_capacity(1 << 20, std::fs::File::create(&args[3]).expect("create trace"));
             let hang_path = format!("{}.hang", &args[3]);
